@@ -20,10 +20,10 @@ func newUnit(prog *Prog, specs *Specs, fn *ssa.Function, fc *FuncContract, opts 
 	}
 	un := &Unit{u: u, prog: prog, specs: specs, fn: fn, contract: fc, compSort: map[string]string{}, compKind: map[string]string{},
 		layers: map[string][]string{}, notes: map[string]bool{}, assumed: map[string]bool{}, safetyN: map[string]int{},
-		fnVals: map[string]*ssa.Function{}, closures: map[string]Val{}, wantSafety: opts.Safety, oblNames: map[string]int{}}
+		fnVals: map[string]*ssa.Function{}, closures: map[string]Val{}, compVolatileType: map[string]bool{}, verBound: map[string]string{}, wantSafety: opts.Safety, oblNames: map[string]int{}}
 	un.maxDepth = opts.MaxDepth
 	if un.maxDepth == 0 {
-		un.maxDepth = 4
+		un.maxDepth = 12
 	}
 	return un
 }
@@ -53,6 +53,14 @@ func verifyFunc(prog *Prog, specs *Specs, fn *ssa.Function, fc *FuncContract, op
 		un.addFact(un.typeFacts(st, c, fv.Type()))
 		un.addFact("(> " + c + " 0)") // a captured variable's cell always exists
 		fr.env[fv] = Val{t: c, typ: fv.Type()}
+	}
+	if fn.Parent() != nil || (fc != nil && fc.Impl != "") {
+		un.selfRef = un.u.freshConst(fn.Name()+".self", "Int")
+		var binds []Val
+		for _, fv := range fn.FreeVars {
+			binds = append(binds, fr.env[fv])
+		}
+		un.attrFacts(un.selfRef, fn, binds, st, fr)
 	}
 	if fc != nil {
 		sc := un.scopeFor(fr, st, un.entry, nil)
@@ -284,7 +292,7 @@ func (un *Unit) frameFormula(c, cur string) string {
 		un.mods = un.resolveModifies(top)
 	}
 	kind := un.compKind[c]
-	if kind == "local" || kind == "next" || kind == "iter" || kind == "box" || c == "G_clock" {
+	if kind == "local" || kind == "next" || kind == "iter" || kind == "box" || c == "G_clock" || un.isVolatile(c) {
 		return ""
 	}
 	old := un.get(un.entry, c)
